@@ -60,8 +60,13 @@ RULES = {
     "graph-like that the same loop iteration edits (`<g>.append(node)`, `<g>.outputs[i] = …`, `<g>.insert_*`) - with the enclosing "
     "graph or function instead, a value of a subgraph can be renamed to a name the subgraph already uses (a body input named like "
     "a body initializer: the checker rejects the model and consumers of the constant read the loop-carried input)",
+    "R14": "a value the caller can override is never the survivor of a merge: where a pass walks the initializers of a graph, records one "
+    "of them in a table (`table[key] = initializer`) and later redirects the uses of an equal one to the recorded value "
+    "(`replace_all_uses_with`), the recorded initializer has passed a test that rejects graph inputs (`is_graph_input()`, directly or in "
+    "the skip predicate called with arguments that leave that test switched on) - an initializer that is also a graph input is only a "
+    "default; a constant folded into it changes value as soon as the caller feeds the input",
 }
-FLOORS = {"R1": 5, "R2": 6, "R3": 8, "R4": 6, "R5": 8, "R6": 2, "R7": 1, "R8": 10, "R9": 1, "R10": 3, "R11": 1, "R12": 2, "R13": 2}
+FLOORS = {"R1": 5, "R2": 6, "R3": 8, "R4": 6, "R5": 8, "R6": 2, "R7": 1, "R8": 10, "R9": 1, "R10": 3, "R11": 1, "R12": 2, "R13": 2, "R14": 2}
 EXPLANATION = (
     "Four structural necessary conditions of semantic preservation that the pass mechanisms rely on: guarded removal, "
     "interface-size preservation (call-site scan with receiver typing), data-dependence of the equivalence keys on all "
@@ -888,7 +893,111 @@ def rule_r13(ctx):
     ctx.require(n >= 2, f"only {n} calls of a uniqueness function next to structural edits found in the pass modules")
 
 
+def _live_input_test(test, me: str, consts: dict) -> bool:
+    """The test holds whenever `<me>.is_graph_input()` does: the call sits in a disjunct, and every conjunct next to it is not
+    switched off by the constant arguments of this call (`not allow and …` with allow=True is dead)."""
+    def const_false(e) -> bool:
+        if isinstance(e, ast.Constant):
+            return not e.value
+        if isinstance(e, ast.Name) and e.id in consts:
+            return not consts[e.id]
+        if isinstance(e, ast.UnaryOp) and isinstance(e.op, ast.Not):
+            o = e.operand
+            if isinstance(o, ast.Constant):
+                return bool(o.value)
+            if isinstance(o, ast.Name) and o.id in consts:
+                return bool(consts[o.id])
+        return False
+
+    def holds(e) -> bool:
+        if isinstance(e, ast.Call) and isinstance(e.func, ast.Attribute) and e.func.attr == "is_graph_input" and norm(e.func.value) == me:
+            return True
+        if isinstance(e, ast.BoolOp) and isinstance(e.op, ast.Or):
+            return any(holds(v) for v in e.values)
+        if isinstance(e, ast.BoolOp) and isinstance(e.op, ast.And):
+            return any(holds(v) for v in e.values) and not any(const_false(v) for v in e.values) and all(holds(v) or _param_switch_on(v, consts) for v in e.values)
+        return False
+
+    return holds(test)
+
+
+def _param_switch_on(e, consts) -> bool:
+    """A conjunct that only reads constants of the call and is true for them."""
+    if isinstance(e, ast.Name) and e.id in consts:
+        return bool(consts[e.id])
+    if isinstance(e, ast.UnaryOp) and isinstance(e.op, ast.Not) and isinstance(e.operand, ast.Name) and e.operand.id in consts:
+        return not consts[e.operand.id]
+    return False
+
+
+def rule_r14(ctx):
+    n = 0
+    for m in ctx.repo.modules.values():
+        if not m.name.startswith("onnx_ir.passes.common.") or m.name.endswith("_test"):
+            continue
+        for f in m.all_funcs:
+            if isinstance(f.node, ast.Lambda):
+                continue
+            for lp in (x for x in own_nodes(f.node) if isinstance(x, ast.For) and isinstance(x.target, ast.Name)
+                       and any(isinstance(y, ast.Attribute) and y.attr == "initializers" for y in ast.walk(x.iter))):
+                v = lp.target.id
+                stores = [a for a in ast.walk(lp) if isinstance(a, ast.Assign) and isinstance(a.targets[0], ast.Subscript) and isinstance(a.value, ast.Name) and a.value.id == v]
+                merges = [c for c in ast.walk(lp) if isinstance(c, ast.Call) and isinstance(c.func, ast.Attribute) and c.func.attr == "replace_all_uses_with"]
+                if not stores or not merges:
+                    continue
+                for st in stores:
+                    n += 1
+                    # tests of `if …: continue` statements that precede the store in its block or an enclosing block of the loop
+                    tests = []
+                    child, p_ = st, getattr(st, "_parent", None)
+                    while p_ is not None:
+                        for fld in ("body", "orelse"):
+                            b = getattr(p_, fld, None)
+                            if isinstance(b, list) and any(child is x for x in b):
+                                for x in b[: next(i for i, y in enumerate(b) if y is child)]:
+                                    if isinstance(x, ast.If) and any(isinstance(y, (ast.Continue, ast.Raise)) for y in x.body):
+                                        tests.append(x.test)
+                        if p_ is lp:
+                            break
+                        child, p_ = p_, getattr(p_, "_parent", None)
+                    ok = False
+                    for t in tests:
+                        if _live_input_test(t, v, {}):
+                            ok = True
+                        for c in (x for x in ast.walk(t) if isinstance(x, ast.Call)):
+                            g = m.functions.get(dotted_of(c.func) or "")
+                            if g is None or not c.args or norm(c.args[0]) != v:
+                                continue
+                            # constants this call hands to the predicate
+                            consts = {}
+                            for i, a in enumerate(c.args):
+                                if isinstance(a, ast.Constant) and i < len(g.params):
+                                    consts[g.params[i]] = a.value
+                            for k in c.keywords:
+                                if isinstance(k.value, ast.Constant) and k.arg:
+                                    consts[k.arg] = k.value.value
+                            ga = g.node.args
+                            for prm, d in list(zip(reversed([x.arg for x in ga.posonlyargs + ga.args]), reversed(ga.defaults))) + \
+                                    [(x.arg, d) for x, d in zip(ga.kwonlyargs, ga.kw_defaults) if d is not None]:
+                                if prm not in consts and isinstance(d, ast.Constant) and not any(k.arg == prm for k in c.keywords) \
+                                        and not (prm in g.params and g.params.index(prm) < len(c.args)):
+                                    consts[prm] = d.value
+                            for iff in (x for x in own_nodes(g.node) if isinstance(x, ast.If)):
+                                if any(isinstance(r, ast.Return) and isinstance(r.value, ast.Constant) and r.value.value is True for r in iff.body) \
+                                        and _live_input_test(iff.test, g.params[0], consts):
+                                    ok = True
+                    ctx.check("R14", f"{f.local}: the initializer recorded by `{norm(st)[:50]}` is not a graph input", ok, f, st,
+                              f"`{norm(st)[:60]}` records an initializer as the one that equal initializers are merged into without a (live) test that it is not a graph "
+                              "input: an initializer that is also a graph input is a default the caller may override - once a constant is folded into it, feeding the "
+                              "input changes what used to be a constant",
+                              how="`if …: continue` tests before the table store in the loop over <g>.initializers: `is_graph_input()` directly, or in the skip predicate "
+                                  "with the constant arguments of the call substituted",
+                              construct=f"graph-input initializer can become the merge survivor in {f.local}")
+    ctx.require(n >= 2, f"only {n} merge tables over initializers found in the pass modules")
+
+
 def run(ctx):
+    rule_r14(ctx)
     rule_r13(ctx)
     rule_r12(ctx)
     rule_r11(ctx)
